@@ -10,6 +10,8 @@ import (
 	"math/rand"
 	"net"
 	"net/http"
+	"net/http/httptest"
+	"net/url"
 	"os"
 	"os/exec"
 	"sort"
@@ -31,13 +33,26 @@ import (
 // TCPMuxGroupCtl (real tcpmux.HTTPConnectTCPMuxer on a loopback listener, real CONNECT requests).
 //
 //	reset <tcp|http|mux>
-//	join <m> <g> <key> <p1> <p2> <p3> <p4> <grab>   => ok:<r>:<=|actual> (tcp) | ok | err:<class> | busy
+//	join <m> <g> <key> <p1> <p2> <p3> <p4> <mode>   => ok:<r>:<=|actual> (tcp) | ok | err:<class> | busy
+//	     mode 0 = plain, 1 = grab (below), 2 = HELD: the member joins but its proxy does not call Accept
+//	     until `resume` (the goroutine that would sit in TCPGroupListener.Accept is not scheduled yet)
 //	     tcp : p1 = bind addr, p2 = port (0 = server chooses, k = base+k)        grab=1: another process
 //	     http: p1 = domain, p2 = location, p3 = routeByHTTPUser                  binds the port between
 //	     mux : p1 = domain, p2 = routeByHTTPUser, p3 = username, p4 = password   Acquire and net.Listen
 //	leave <m>                                       => - | nomember | crash (only inside sched: the child dies)
-//	conn <a> <b> <c>                                => to:<m> | refused | stuck | closed | squat | noroute | nomember | unauth
+//	conn <a> <b> <c>                                => to:<m> | refused | stuck | closed | squat | noroute | nomember | unauth | held | busy
+//	     (held = every live member of that endpoint is held: not attempted; use dial)
+//	dial <id> <a> <b> <c>                           => c | refused | noroute | unauth | squat | busy | dupid
+//	     a user connection that is opened and KEPT: arrival is decoupled from pick-up.  It is resolved
+//	     later: delivered to a member, closed by frps, or never (stranded).
+//	resume <m>                                      => - | noop      a held member starts its accept loop
+//	     join/enter/leave/resume/dial append `|<id>=to:<m>,<id>=closed,…`: the kept connections that
+//	     were resolved by the end of the op (waiting up to 2 s for those that must be: a member of the
+//	     endpoint is accepting, or the endpoint has no live member left; `<id>=stuck` = it had to be and
+//	     is still open after the 2 s — reported once, then the user gives up)
 //	     tcp : a = port k (dial 127.0.0.1:base+k)    http: domain location user    mux: domain user password
+//	connE <a> <b> <c>                               => to:<m> | noroute | squat | badop   http only: the same request through the real
+//	     HTTPReverseProxy.ServeHTTP (Rewrite → chooseEndpoint, transport → createConnByEndpoint)
 //	squat <a> <b> <c> / unsquat <a> <b> <c>         => ok | busy | -
 //	view                                            => used ports / routes held, canonical
 //	lookup <m> <g> <key> <p1..p4> <grab>            => parked | busy | nogate      (join goroutine parked between lookup and join)
@@ -49,7 +64,22 @@ type groupMember struct {
 	name, g string
 	ln      net.Listener      // tcp / mux
 	route   vhost.RouteConfig // http
-	done    chan struct{}     // the member's accept loop has returned
+	done    chan struct{}     // the member's accept loop has returned (nil: never started)
+	manual  bool              // held: joined, accept loop not started
+	key     string            // endpoint this member's listener sits on (harness bookkeeping)
+	user    string            // mux: credentials of the listener
+	pass    string
+}
+
+// a user connection that is kept open after the dial
+type groupDial struct {
+	id       int
+	c        net.Conn
+	key      string        // endpoint it reached
+	res      string        // "" = unresolved | to:<m> | closed | squat | unauth
+	done     chan struct{} // closed when resolved
+	doomed   bool          // its endpoint lost its last live member: frps must close it
+	reported bool
 }
 
 type groupPending struct {
@@ -77,6 +107,7 @@ type groupWorld struct {
 	armed   map[string]*groupPending // gate key -> pending join to park
 	grab    map[string]int           // proxy name -> port to bind at the acquire gate
 	parkedC chan string
+	dials   map[int]*groupDial
 }
 
 var groupW *groupWorld
@@ -129,6 +160,9 @@ func groupClose() {
 	for _, s := range w.squats {
 		s.Close()
 	}
+	for _, d := range w.dials {
+		d.c.Close()
+	}
 	if w.muxLn != nil {
 		w.muxLn.Close()
 	}
@@ -149,7 +183,7 @@ func groupReset(kind string) {
 	groupClose()
 	w := &groupWorld{kind: kind, members: map[string]*groupMember{}, pending: map[string]*groupPending{},
 		pendGrp: map[string]string{}, squats: map[string]io.Closer{}, armed: map[string]*groupPending{},
-		grab: map[string]int{}, parkedC: make(chan string, 16)}
+		grab: map[string]int{}, parkedC: make(chan string, 16), dials: map[int]*groupDial{}}
 	switch kind {
 	case "tcp":
 		w.base = groupPickBase()
@@ -245,7 +279,13 @@ func groupServeMember(name string, ln net.Listener) chan struct{} {
 }
 
 // doJoin runs the real join; called on the op goroutine (big step) or on its own goroutine (gated)
-func (w *groupWorld) doJoin(m, g, key string, p [4]string) string {
+func (w *groupWorld) doJoin(m, g, key string, p [4]string, manual bool) string {
+	serve := func(ln net.Listener) chan struct{} {
+		if manual {
+			return nil
+		}
+		return groupServeMember(m, ln)
+	}
 	switch w.kind {
 	case "tcp":
 		port := atoi(p[1])
@@ -257,7 +297,11 @@ func (w *groupWorld) doJoin(m, g, key string, p [4]string) string {
 			return groupErrClass(err)
 		}
 		w.mu.Lock()
-		w.members[m] = &groupMember{name: m, g: g, ln: ln, done: groupServeMember(m, ln)}
+		ek := "p?"
+		if ta, ok := ln.Addr().(*net.TCPAddr); ok {
+			ek = "p" + strconv.Itoa(ta.Port)
+		}
+		w.members[m] = &groupMember{name: m, g: g, ln: ln, done: serve(ln), manual: manual, key: ek}
 		w.mu.Unlock()
 		act := "="
 		if ta, ok := ln.Addr().(*net.TCPAddr); !ok || ta.Port != realPort {
@@ -266,7 +310,7 @@ func (w *groupWorld) doJoin(m, g, key string, p [4]string) string {
 		return fmt.Sprintf("ok:%d:%s", realPort-w.base, act)
 	case "http":
 		rc := vhost.RouteConfig{Domain: p[0], Location: p[1], RouteByHTTPUser: p[2],
-			CreateConnFn: func(string) (net.Conn, error) { return &groupTagConn{tag: m}, nil }}
+			CreateConnFn: func(string) (net.Conn, error) { return groupHTTPBackend(m), nil }}
 		err := w.httpCtl.Register(m, g, key, rc)
 		if err != nil {
 			return groupErrClass(err)
@@ -282,7 +326,8 @@ func (w *groupWorld) doJoin(m, g, key string, p [4]string) string {
 			return groupErrClass(err)
 		}
 		w.mu.Lock()
-		w.members[m] = &groupMember{name: m, g: g, ln: ln, done: groupServeMember(m, ln)}
+		w.members[m] = &groupMember{name: m, g: g, ln: ln, done: serve(ln), manual: manual,
+			key: strings.ToLower(p[0]) + "|" + p[1], user: p[2], pass: p[3]}
 		w.mu.Unlock()
 		return "ok"
 	}
@@ -300,7 +345,7 @@ func (w *groupWorld) busyName(m, g string) bool {
 	return a || b || c
 }
 
-func groupParams(tok []string) (m, g, key string, p [4]string, grab bool) {
+func groupParams(tok []string) (m, g, key string, p [4]string, grab bool, manual bool) {
 	m, g, key = unhx(tok[1]), unhx(tok[2]), unhx(tok[3])
 	for i := 0; i < 4; i++ {
 		if strings.HasPrefix(tok[4+i], "x") {
@@ -310,6 +355,7 @@ func groupParams(tok []string) (m, g, key string, p [4]string, grab bool) {
 		}
 	}
 	grab = tok[8] == "1"
+	manual = tok[8] == "2"
 	return
 }
 
@@ -342,6 +388,30 @@ func groupReadTag(c net.Conn, br *bufio.Reader) string {
 }
 
 func (w *groupWorld) conn(a, b, c string) string {
+	if w.kind != "http" {
+		w.mu.Lock()
+		busy := w.kind == "mux" && w.unresolved() > 0
+		key := ""
+		if w.kind == "tcp" {
+			key = "p" + strconv.Itoa(w.base+atoi(a))
+		} else {
+			key = w.muxKey(a, b)
+		}
+		ms := w.membersAt(key)
+		held := len(ms) > 0
+		for _, mb := range ms {
+			if !mb.manual {
+				held = false
+			}
+		}
+		w.mu.Unlock()
+		if busy {
+			return "busy"
+		}
+		if held {
+			return "held"
+		}
+	}
 	switch w.kind {
 	case "tcp":
 		cn, err := net.DialTimeout("tcp", "127.0.0.1:"+strconv.Itoa(w.base+atoi(a)), time.Second)
@@ -359,6 +429,7 @@ func (w *groupWorld) conn(a, b, c string) string {
 			return "noroute"
 		}
 		t := cn.(*groupTagConn).tag
+		cn.Close()
 		if t == "SQUAT" {
 			return "squat"
 		}
@@ -392,6 +463,227 @@ func (w *groupWorld) conn(a, b, c string) string {
 	}
 }
 
+// ---- kept connections (dial) and the harness's own view of who could take them.  All under w.mu.
+
+func (w *groupWorld) membersAt(key string) []*groupMember {
+	var r []*groupMember
+	for _, mb := range w.members {
+		if mb.key == key {
+			r = append(r, mb)
+		}
+	}
+	return r
+}
+
+func (w *groupWorld) unresolved() int {
+	n := 0
+	for _, d := range w.dials {
+		if d.res == "" {
+			n++
+		}
+	}
+	return n
+}
+
+// getListener without wildcards: the route of (domain, user) if somebody holds it, else (domain, "")
+func (w *groupWorld) muxKey(domain, user string) string {
+	k := strings.ToLower(domain) + "|" + user
+	if user == "" || len(w.membersAt(k)) > 0 {
+		return k
+	}
+	for sk := range w.squats {
+		f := strings.Split(sk, "|")
+		if len(f) == 4 && f[0] == "mux" && strings.ToLower(f[1])+"|"+f[2] == k {
+			return k
+		}
+	}
+	return strings.ToLower(domain) + "|"
+}
+
+func (w *groupWorld) watch(d *groupDial, br *bufio.Reader) {
+	go func() {
+		line, err := br.ReadString('\n')
+		res := "closed"
+		if err == nil {
+			line = strings.TrimSpace(line)
+			switch {
+			case line == "SQUAT":
+				res = "squat"
+			case strings.HasPrefix(line, "HTTP/1.1 407"):
+				res = "unauth"
+			default:
+				res = "to:" + hx(line)
+			}
+		}
+		w.mu.Lock()
+		d.res = res
+		w.mu.Unlock()
+		close(d.done)
+	}()
+}
+
+func (w *groupWorld) dial(id int, a, b, c string) string {
+	w.mu.Lock()
+	_, dup := w.dials[id]
+	busy := w.kind == "mux" && w.unresolved() > 0
+	w.mu.Unlock()
+	if dup {
+		return "dupid"
+	}
+	d := &groupDial{id: id, done: make(chan struct{})}
+	var br *bufio.Reader
+	switch w.kind {
+	case "tcp":
+		cn, err := net.DialTimeout("tcp", "127.0.0.1:"+strconv.Itoa(w.base+atoi(a)), time.Second)
+		if err != nil {
+			d.c, d.res, d.reported = groupNoConn{}, "refused", true
+			close(d.done)
+			w.mu.Lock()
+			w.dials[id] = d
+			w.mu.Unlock()
+			return "refused"
+		}
+		d.c, d.key = cn, "p"+strconv.Itoa(w.base+atoi(a))
+		br = bufio.NewReader(cn)
+	case "mux":
+		// one kept connection at a time: a second one would wait inside vhost.Muxer.handle, not in the
+		// group (the group's worker takes one connection and blocks in its send)
+		if busy {
+			return "busy"
+		}
+		cn, err := net.DialTimeout("tcp", w.muxLn.Addr().String(), time.Second)
+		st := "refused"
+		if err == nil {
+			host := strings.ToLower(a)
+			req := "CONNECT " + host + ":80 HTTP/1.1\r\nHost: " + host + ":80\r\n"
+			if b != "" || c != "" {
+				req += "Proxy-Authorization: Basic " + base64.StdEncoding.EncodeToString([]byte(b+":"+c)) + "\r\n"
+			}
+			cn.Write([]byte(req + "\r\n"))
+			br = bufio.NewReader(cn)
+			cn.SetReadDeadline(time.Now().Add(time.Second))
+			resp, rerr := http.ReadResponse(br, nil)
+			cn.SetReadDeadline(time.Time{})
+			switch {
+			case rerr != nil:
+				st = "closed"
+			case resp.StatusCode == 200:
+				st = ""
+			case resp.StatusCode == 407:
+				st = "unauth"
+			default:
+				st = "noroute"
+			}
+			if st != "" {
+				cn.Close()
+			}
+		}
+		if st != "" {
+			d.c, d.res, d.reported = groupNoConn{}, st, true
+			close(d.done)
+			w.mu.Lock()
+			w.dials[id] = d
+			w.mu.Unlock()
+			return st
+		}
+		d.c = cn
+		w.mu.Lock()
+		d.key = w.muxKey(a, b)
+		w.mu.Unlock()
+		// Muxer.handle has answered 200 and is about to hand the connection to the group's worker
+		time.Sleep(20 * time.Millisecond)
+	default:
+		return "badop"
+	}
+	w.mu.Lock()
+	ms := w.membersAt(d.key)
+	if len(ms) == 0 {
+		d.doomed = true // a squatter answers, or nobody does
+	}
+	for _, mb := range ms {
+		if w.kind == "mux" && mb.user != "" && (mb.user != b || mb.pass != c) {
+			d.doomed = true // the 407 follows the 200
+		}
+	}
+	w.dials[id] = d
+	w.mu.Unlock()
+	w.watch(d, br)
+	// squat / unauth are answers to the dial itself
+	w.await(d, time.Now().Add(2*time.Second))
+	w.mu.Lock()
+	defer w.mu.Unlock()
+	if d.res == "squat" || d.res == "unauth" {
+		d.reported = true
+		return d.res
+	}
+	return "c"
+}
+
+type groupNoConn struct{ net.Conn }
+
+func (groupNoConn) Close() error { return nil }
+
+// await waits for d's resolution if the harness's own bookkeeping says it has to come; true = it had
+// to come and did not
+func (w *groupWorld) await(d *groupDial, deadline time.Time) bool {
+	w.mu.Lock()
+	must := d.res == "" && d.doomed
+	if d.res == "" && !must {
+		for _, mb := range w.membersAt(d.key) {
+			if !mb.manual {
+				must = true
+			}
+		}
+	}
+	w.mu.Unlock()
+	if must {
+		select {
+		case <-d.done:
+		case <-time.After(time.Until(deadline)):
+			return true
+		}
+	}
+	return false
+}
+
+// settle: the kept connections resolved by now, "<id>=<res>,…" in id order
+func (w *groupWorld) settle() string {
+	w.mu.Lock()
+	ids := []int{}
+	for id, d := range w.dials {
+		if !d.reported {
+			ids = append(ids, id)
+		}
+	}
+	w.mu.Unlock()
+	if len(ids) == 0 {
+		return ""
+	}
+	sort.Ints(ids)
+	deadline := time.Now().Add(2 * time.Second)
+	late := map[int]bool{}
+	for _, id := range ids {
+		late[id] = w.await(w.dials[id], deadline)
+	}
+	parts := []string{}
+	w.mu.Lock()
+	for _, id := range ids {
+		d := w.dials[id]
+		if d.res != "" {
+			d.reported = true
+			d.c.Close()
+			parts = append(parts, strconv.Itoa(id)+"="+d.res)
+		} else if late[id] {
+			// still open 2 s after the moment somebody had to take or close it: said once, then dropped
+			d.reported = true
+			d.c.Close()
+			parts = append(parts, strconv.Itoa(id)+"=stuck")
+		}
+	}
+	w.mu.Unlock()
+	return strings.Join(parts, ",")
+}
+
 func (w *groupWorld) squat(a, b, c string, on bool) string {
 	key := w.kind + "|" + a + "|" + b + "|" + c
 	if !on {
@@ -423,7 +715,7 @@ func (w *groupWorld) squat(a, b, c string, on bool) string {
 		w.squats[key] = l
 	case "http":
 		rc := vhost.RouteConfig{Domain: a, Location: b, RouteByHTTPUser: c,
-			CreateConnFn: func(string) (net.Conn, error) { return &groupTagConn{tag: "SQUAT"}, nil }}
+			CreateConnFn: func(string) (net.Conn, error) { return groupHTTPBackend("SQUAT"), nil }}
 		if err := w.rp.Register(rc); err != nil {
 			return "busy"
 		}
@@ -437,6 +729,46 @@ func (w *groupWorld) squat(a, b, c string, on bool) string {
 		w.squats[key] = l
 	}
 	return "ok"
+}
+
+// groupHTTPBackend: the work connection of http member `tag`: one end of a pipe whose other end
+// answers one HTTP request naming the member (so the real ServeHTTP path can be driven through it)
+func groupHTTPBackend(tag string) net.Conn {
+	cl, sv := net.Pipe()
+	go func() {
+		defer sv.Close()
+		req, err := http.ReadRequest(bufio.NewReader(sv))
+		if err != nil {
+			return
+		}
+		if req.Body != nil {
+			io.Copy(io.Discard, req.Body)
+		}
+		fmt.Fprintf(sv, "HTTP/1.1 200 OK\r\nX-Member: %s\r\nContent-Length: 0\r\nConnection: close\r\n\r\n", hx(tag))
+	}()
+	return &groupTagConn{Conn: cl, tag: tag}
+}
+
+// connE: an http request through the real HTTPReverseProxy.ServeHTTP — Rewrite calls the group's
+// chooseEndpoint, the transport dials with CreateConnection(…, byEndpoint = true) → createConnByEndpoint
+func (w *groupWorld) connE(a, b, c string) string {
+	req := &http.Request{Method: "GET", URL: &url.URL{Path: b}, Host: strings.ToLower(a), Header: http.Header{},
+		Proto: "HTTP/1.1", ProtoMajor: 1, ProtoMinor: 1, RemoteAddr: "1.2.3.4:5"}
+	if c != "" {
+		req.SetBasicAuth(c, "x")
+	}
+	ctx, cancel := context.WithTimeout(context.Background(), 3*time.Second)
+	defer cancel()
+	rec := httptest.NewRecorder()
+	w.rp.ServeHTTP(rec, req.WithContext(ctx))
+	if rec.Code != 200 {
+		return "noroute"
+	}
+	t := rec.Header().Get("X-Member")
+	if t == hx("SQUAT") {
+		return "squat"
+	}
+	return "to:" + t
 }
 
 type groupCloser func()
@@ -456,7 +788,7 @@ func (w *groupWorld) view() string {
 		for _, p := range ps {
 			parts = append(parts, strconv.Itoa(p))
 		}
-		return "used=" + strings.Join(parts, ",")
+		return "used=" + strings.Join(parts, ",") + w.viewOpen()
 	case "http":
 		rs := []string{}
 		for _, r := range w.routers.VerifDump() {
@@ -465,7 +797,27 @@ func (w *groupWorld) view() string {
 		sort.Strings(rs)
 		return "routes=" + strings.Join(rs, ",")
 	}
-	return "-"
+	return "-" + w.viewOpen()
+}
+
+func (w *groupWorld) viewOpen() string {
+	w.mu.Lock()
+	defer w.mu.Unlock()
+	ids := []int{}
+	for id, d := range w.dials {
+		if !d.reported {
+			ids = append(ids, id)
+		}
+	}
+	if len(ids) == 0 {
+		return ""
+	}
+	sort.Ints(ids)
+	parts := []string{}
+	for _, id := range ids {
+		parts = append(parts, strconv.Itoa(id))
+	}
+	return " open=" + strings.Join(parts, ",")
 }
 
 // groupProbeGates: does the linked frp tree carry the lookup/join gates (hooks/C13.patch)?
@@ -513,23 +865,36 @@ func groupExec(tok []string) string {
 		go func() { ch <- groupExecOp(w, tok) }()
 		select {
 		case r := <-ch:
-			return r
+			return groupSettled(w, tok, r)
 		case <-time.After(500 * time.Millisecond):
 			return "blocked"
 		}
 	}
-	return groupExecOp(w, tok)
+	return groupSettled(w, tok, groupExecOp(w, tok))
+}
+
+func groupSettled(w *groupWorld, tok []string, r string) string {
+	if w.kind == "http" {
+		return r
+	}
+	switch tok[0] {
+	case "join", "enter", "leave", "resume", "dial":
+		if suf := w.settle(); suf != "" {
+			return r + "|" + suf
+		}
+	}
+	return r
 }
 
 func groupExecOp(w *groupWorld, tok []string) string {
 	switch tok[0] {
 	case "join":
-		m, g, key, p, grab := groupParams(tok)
+		m, g, key, p, grab, manual := groupParams(tok)
 		if w.busyName(m, g) {
 			return "busy"
 		}
 		w.armGrab(m, p, grab)
-		r := w.doJoin(m, g, key, p)
+		r := w.doJoin(m, g, key, p, manual && w.kind != "http")
 		w.mu.Lock()
 		delete(w.grab, m) // Acquire failed before the gate: the grab must not fire on a later join
 		w.mu.Unlock()
@@ -538,7 +903,7 @@ func groupExecOp(w *groupWorld, tok []string) string {
 		if !groupProbeGates() {
 			return "nogate"
 		}
-		m, g, key, p, grab := groupParams(tok)
+		m, g, key, p, grab, manual := groupParams(tok)
 		if w.busyName(m, g) {
 			return "busy"
 		}
@@ -549,7 +914,7 @@ func groupExecOp(w *groupWorld, tok []string) string {
 		w.pendGrp[g] = m
 		w.armed[groupGateKey(w.kind, m, g, p[0])] = pd
 		w.mu.Unlock()
-		go func() { pd.done <- w.doJoin(m, g, key, p) }()
+		go func() { pd.done <- w.doJoin(m, g, key, p, manual && w.kind != "http") }()
 		select {
 		case <-w.parkedC:
 			return "parked"
@@ -584,6 +949,14 @@ func groupExecOp(w *groupWorld, tok []string) string {
 		w.mu.Lock()
 		mb := w.members[m]
 		delete(w.members, m)
+		if mb != nil && w.kind != "http" && len(w.membersAt(mb.key)) == 0 {
+			// the endpoint has no live member left: whatever is still waiting there must be closed by frps
+			for _, d := range w.dials {
+				if d.key == mb.key && d.res == "" {
+					d.doomed = true
+				}
+			}
+		}
 		w.mu.Unlock()
 		if mb == nil {
 			return "nomember"
@@ -593,15 +966,36 @@ func groupExecOp(w *groupWorld, tok []string) string {
 		} else {
 			mb.ln.Close()
 			// "live" ends when Close has returned AND the proxy's accept loop has seen it
-			select {
-			case <-mb.done:
-			case <-time.After(2 * time.Second):
-				return "loopalive"
+			if mb.done != nil {
+				select {
+				case <-mb.done:
+				case <-time.After(2 * time.Second):
+					return "loopalive"
+				}
 			}
 		}
 		return "-"
+	case "resume":
+		m := unhx(tok[1])
+		w.mu.Lock()
+		mb := w.members[m]
+		if mb == nil || !mb.manual || w.kind == "http" {
+			w.mu.Unlock()
+			return "noop"
+		}
+		mb.manual = false
+		mb.done = groupServeMember(mb.name, mb.ln)
+		w.mu.Unlock()
+		return "-"
+	case "dial":
+		return w.dial(atoi(tok[1]), groupTok(tok[2]), groupTok(tok[3]), groupTok(tok[4]))
 	case "conn":
 		return w.conn(groupTok(tok[1]), groupTok(tok[2]), groupTok(tok[3]))
+	case "connE":
+		if w.kind != "http" {
+			return "badop"
+		}
+		return w.connE(groupTok(tok[1]), groupTok(tok[2]), groupTok(tok[3]))
 	case "squat":
 		return w.squat(groupTok(tok[1]), groupTok(tok[2]), groupTok(tok[3]), true)
 	case "unsquat":
@@ -728,7 +1122,7 @@ func groupGenParams(rng *rand.Rand, kind, g string, variant int) [4]string {
 
 var groupFresh int
 
-func groupGenJoin(rng *rand.Rand, kind, op, m string) string {
+func groupGenJoin(rng *rand.Rand, kind, op, m string, held bool) string {
 	g := pick(rng, groupGroups)
 	key := pick(rng, groupKeys)
 	v := 0
@@ -739,6 +1133,9 @@ func groupGenJoin(rng *rand.Rand, kind, op, m string) string {
 	grab := "0"
 	if kind == "tcp" && rng.Intn(12) == 0 {
 		grab = "1"
+	}
+	if held && grab == "0" {
+		grab = "2"
 	}
 	if kind == "tcp" && p[1] == "0" {
 		// a name that never held a port: ports.Manager's reserved-port path (C09's business) stays out of the way
@@ -753,7 +1150,7 @@ func groupGenConn(rng *rand.Rand, kind string) string {
 	case "tcp":
 		return fmt.Sprintf("conn %d x x", []int{3, 3, 5, 1 + rng.Intn(9)}[rng.Intn(4)])
 	case "http":
-		return fmt.Sprintf("conn %s %s %s", hx(pick(rng, []string{"a.com", "a.com", "b.com", "A.com"})),
+		return fmt.Sprintf("%s %s %s %s", pick(rng, []string{"conn", "connE"}), hx(pick(rng, []string{"a.com", "a.com", "b.com", "A.com"})),
 			hx(pick(rng, []string{"/a", "/a", "/b", ""})), hx(pick(rng, []string{"", "", "u1"})))
 	default:
 		return fmt.Sprintf("conn %s %s %s", hx(pick(rng, []string{"a.com", "a.com", "b.com"})),
@@ -834,6 +1231,7 @@ func groupGen(rng *rand.Rand, n int, emit func(string)) {
 		k := kinds[rng.Intn(3)]
 		e("reset " + k)
 		in := map[string]bool{}
+		dialID := 0
 		for j := 0; j < 40+rng.Intn(60) && emitted < n; j++ {
 			var outs, ins []string
 			for _, m := range groupNames {
@@ -845,15 +1243,35 @@ func groupGen(rng *rand.Rand, n int, emit func(string)) {
 				ins = append(ins, m)
 			}
 			sort.Strings(ins)
-			switch r := rng.Intn(20); {
+			r := rng.Intn(25)
+			if k == "http" && r >= 20 {
+				r = 11 + rng.Intn(9)
+			}
+			switch {
 			case r < 6:
 				m := pick(rng, groupNames)
 				if len(outs) > 0 && rng.Intn(8) != 0 {
 					m = pick(rng, outs)
 				}
-				line := groupGenJoin(rng, k, "join", m)
+				line := groupGenJoin(rng, k, "join", m, k != "http" && rng.Intn(6) == 0)
 				e(line)
 				in[unhx(strings.Fields(line)[1])] = true
+			case r == 20 || r == 23:
+				// a user connection that is kept: whoever is (or is not) accepting at that endpoint
+				dialID++
+				id := dialID
+				if rng.Intn(30) == 0 {
+					id = 1 + rng.Intn(dialID)
+				}
+				e(strings.Replace(groupGenConn(rng, k), "conn", fmt.Sprintf("dial %d", id), 1))
+			case r == 21:
+				m := pick(rng, groupNames)
+				if len(ins) > 0 {
+					m = pick(rng, ins)
+				}
+				e("resume " + hx(m))
+			case r == 22 || r == 24:
+				groupGenEpisode(rng, k, e, in, &dialID)
 			case r < 11:
 				m := pick(rng, groupNames)
 				if len(ins) > 0 && rng.Intn(8) != 0 {
@@ -872,6 +1290,119 @@ func groupGen(rng *rand.Rand, n int, emit func(string)) {
 			}
 		}
 	}
+}
+
+// an episode of "arrival decoupled from pick-up": members of ONE group join (mostly held), user
+// connections arrive and are kept, then the members resume / leave / are joined by others in a random
+// order with further arrivals in between; finally the group is used again (re-creation).  Every kept
+// connection must end delivered to a live member or closed.
+func groupGenEpisode(rng *rand.Rand, kind string, e func(string), in map[string]bool, dialID *int) {
+	g := pick(rng, []string{"g1", "G1"})
+	if kind == "mux" {
+		g = pick(rng, []string{"g1", "g2", "G1"})
+	}
+	p := groupGenParams(rng, kind, g, 0)
+	join := func(m, mode string) {
+		key := "k"
+		if rng.Intn(10) == 0 {
+			key = "K"
+		}
+		e(fmt.Sprintf("join %s %s %s %s %s %s %s %s", hx(m), hx(g), hx(key), p[0], p[1], p[2], p[3], mode))
+		in[m] = true
+	}
+	dial := func() string {
+		*dialID++
+		if kind == "tcp" {
+			port := p[1]
+			if rng.Intn(8) == 0 {
+				port = strconv.Itoa(1 + rng.Intn(9))
+			}
+			return fmt.Sprintf("dial %d %s x x", *dialID, port)
+		}
+		user := p[2]
+		if user == "x" {
+			user = p[1]
+		}
+		return fmt.Sprintf("dial %d %s %s %s", *dialID, p[0], user, p[3])
+	}
+	var outs []string
+	for _, m := range groupNames {
+		if !in[m] {
+			outs = append(outs, m)
+		}
+	}
+	if len(outs) == 0 {
+		outs = append(outs, groupNames...)
+	}
+	rng.Shuffle(len(outs), func(i, j int) { outs[i], outs[j] = outs[j], outs[i] })
+	names := outs[:min(len(outs), 1+rng.Intn(3))]
+	for _, m := range names {
+		mode := "2"
+		if rng.Intn(6) == 0 {
+			mode = "0"
+		}
+		join(m, mode)
+	}
+	nd := 1 + rng.Intn(4)
+	first := 1 + rng.Intn(nd)
+	for i := 0; i < first; i++ {
+		e(dial())
+	}
+	acts := []string{}
+	for i := first; i < nd; i++ {
+		acts = append(acts, dial())
+	}
+	for _, m := range names {
+		switch rng.Intn(6) {
+		case 0, 1, 2:
+			acts = append(acts, "leave "+hx(m))
+		case 3:
+			acts = append(acts, "resume "+hx(m))
+		case 4:
+			acts = append(acts, "resume "+hx(m), "leave "+hx(m))
+		}
+	}
+	if rng.Intn(3) == 0 {
+		acts = append(acts, "view")
+	}
+	late := ""
+	if rng.Intn(3) == 0 && len(outs) > len(names) {
+		late = outs[len(names)]
+		acts = append(acts, "latejoin")
+	}
+	rng.Shuffle(len(acts), func(i, j int) { acts[i], acts[j] = acts[j], acts[i] })
+	left := map[string]bool{}
+	for _, a := range acts {
+		if a == "latejoin" {
+			join(late, pick(rng, []string{"0", "2"}))
+			continue
+		}
+		e(a)
+		if strings.HasPrefix(a, "leave ") {
+			left[unhx(a[6:])] = true
+		}
+	}
+	if rng.Intn(2) == 0 {
+		for _, m := range append(append([]string{}, names...), late) {
+			if m != "" && !left[m] {
+				e("leave " + hx(m))
+				left[m] = true
+			}
+		}
+	}
+	for m := range left {
+		delete(in, m)
+	}
+	// the endpoint again, at once
+	if rng.Intn(2) == 0 {
+		for _, m := range groupNames {
+			if !in[m] {
+				join(m, "0")
+				break
+			}
+		}
+	}
+	e(strings.Replace(dial(), "dial "+strconv.Itoa(*dialID), "conn", 1))
 }
 
 // joins for schedules: one group, mostly the right key and the same endpoint (so that races matter)
